@@ -408,6 +408,10 @@ class Server:
         t0 = time.time()
         if not self.fine_grained_manager:
             return {"error": "Command 'recheck' is only valid after a 'check' command"}
+        if self.following_imports() and (remove is not None or update is not None):
+            return {
+                "error": "Command 'recheck' does not support --remove/--update when following imports"
+            }
         sources = self.previous_sources
         if remove:
             removals = set(remove)
